@@ -18,7 +18,7 @@ class Contract(object):
     def __init__(self, qualname, prop, model="R", params=None, returns=None, requires=(), ensures=(), modifies=(),
                  raises=None, loops=None, inline=(), canary=None, trusted=(), leading_asserts="oblige",
                  globals=None, fresh_result=False, note="", ghost=None, pure=False, assume_only=False,
-                 replay=None, allocates=True, axioms=(), assume=(), tag=None, lemmas_used=(), native_tol=None, may_raise=None, native_search=True):
+                 replay=None, allocates=True, axioms=(), assume=(), tag=None, lemmas_used=(), native_tol=None, may_raise=None, native_search=True, native_gen=None):
         self.qualname = qualname
         self.tag = tag
         self.tag_is_lemma = bool(tag) and tag.startswith("lemma")
@@ -46,6 +46,7 @@ class Contract(object):
         self.allocates = allocates
         self.axioms = list(axioms)
         self.lemmas_used = list(lemmas_used)
+        self.native_gen = native_gen   # python source of  def gen(rng): return {param: value}  using the real constructors
         self.native_search = native_search   # False: inputs cannot be built natively by type (C-backed objects)
         self.may_raise = dict(may_raise or {})   # exception name -> clauses that hold in the post-state when it is raised
         self.native_tol = native_tol   # tolerance of the native (CPython) clause evaluation; 0 = exact
